@@ -647,6 +647,28 @@ def configs_for(name, model_kw, shape_index, ntips, tier, part):
 BIN_MODELS = ("HKY85", "GN", "JC69", "U_NUC_NS", "GTR", "U_DINUC_M", "JTT92", "MG94HKY", "GNC")
 
 
+def golden_code(gc):
+    import json
+    import os
+
+    path = os.path.join(os.path.dirname(os.path.dirname(os.path.dirname(os.path.abspath(__file__)))), "data", "ncbi_codes.json")
+    return next(c["aa"] for c in json.load(open(path))["codes"] if c["id"] == gc)
+
+
+def run_genetic_codes(spec, acc, tier):
+    """codon models under several genetic codes built one after the other in the same process (standard, vertebrate
+    mitochondrial, standard again, yeast mitochondrial): each must match the oracle for *its* code. A cache of codon
+    properties shared between models of different codes is invisible when only one code is used per process."""
+    for i, gc in enumerate(spec["order"]):
+        with F.genetic_code(golden_code(gc)):
+            kw = {"gc": gc} if gc != 1 else {}
+            cfgs = configs_for(spec["model"], kw, 0, 2, tier, "params")
+            for c in cfgs[:: max(1, len(cfgs) // 3)][:3]:
+                # the history is part of the case: models of these codes were built earlier in the process
+                check_config(dict(c, built_before=spec["order"][:i]), acc)
+    acc.sample({"genetic_codes_in_one_process": spec["order"], "model": spec["model"]}, "gcodes")
+
+
 def shards(tier, seed):
     heavy, out = [], []
     # codon models first: they are the longest shards (61 states, model construction 1-4 s per process)
@@ -690,6 +712,9 @@ def shards(tier, seed):
                     if nt == 4 and (part != "params" or si not in (2, 3)):
                         continue
                     out.append({"family": "protein", "model": name, "kw": {}, "ntips": nt, "shape": si, "part": part})
+    for name in (("MG94HKY", "GY94") if tier == "quick" else ("MG94HKY", "GY94", "CNFGTR", "H04G")):
+        heavy.append({"family": "codon", "model": name, "part": "gcodes", "order": [1, 12, 1, 26]})
+        heavy.append({"family": "codon", "model": name, "part": "gcodes", "order": [12, 1]})
     out = heavy + out
     for s in out:
         s["tier"] = tier
@@ -704,6 +729,9 @@ def shard_configs(spec, tier):
 
 
 def run_shard(spec, acc):
+    if spec["part"] == "gcodes":
+        run_genetic_codes(spec, acc, spec["tier"])
+        return
     for cfg in shard_configs(spec, spec["tier"]):
         fails = check_config(cfg, acc)
         acc.outcome((cfg["model"], bins_class(cfg), bool(fails)))
@@ -716,6 +744,12 @@ def replay(case):
     from vf.kernel.runner import Acc
 
     acc = Acc()
+    for g in case.get("built_before") or []:
+        make_model(case["model"], {"gc": g} if g != 1 else {})  # re-create the history of the recorded case
+    gc = (case.get("model_kw") or {}).get("gc")
+    if gc:
+        with F.genetic_code(golden_code(gc)):
+            return check_config(case, acc, report=False)
     return check_config(case, acc, report=False)
 
 
